@@ -19,6 +19,7 @@ type FuncReport struct {
 	Unmodelled  []string
 	Notes       []string
 	Obligations []*Obligation
+	Ends        map[string]int
 }
 
 func (e *Engine) newState(decisions []int, fnName string) *State {
@@ -39,7 +40,7 @@ func countInstrs(fn *ssa.Function) int {
 // verifyFunc generates every obligation of one function under contract.
 func (e *Engine) verifyFunc(fn *ssa.Function, fc *FuncContract) *FuncReport {
 	name := shortFn(fn)
-	rep := &FuncReport{Name: name, Instrs: countInstrs(fn)}
+	rep := &FuncReport{Name: name, Instrs: countInstrs(fn), Ends: map[string]int{}}
 	if pos := e.prog.Fset.Position(fn.Pos()); pos.IsValid() {
 		rep.File = strings.TrimPrefix(pos.Filename, e.repo+"/")
 	}
@@ -64,7 +65,7 @@ func (e *Engine) verifyFunc(fn *ssa.Function, fc *FuncContract) *FuncReport {
 				if r := recover(); r != nil {
 					switch x := r.(type) {
 					case pathEnd:
-						_ = x
+						rep.Ends[x.why]++
 					case unsupported:
 						if !unsupSeen[x.msg] {
 							unsupSeen[x.msg] = true
@@ -95,6 +96,14 @@ func (e *Engine) verifyFunc(fn *ssa.Function, fc *FuncContract) *FuncReport {
 				rep.Notes = append(rep.Notes, n)
 			}
 		}
+	}
+	if rep.Completed == 0 && !fc.Trusted && len(rep.Unsupported) == 0 {
+		// vacuity guard: the preconditions (or a trusted model) exclude every execution
+		s := e.newState(nil, name)
+		o := s.oblige("cover", "cover:some-path-returns", True)
+		o.Expect = "sat"
+		o.Hyps = []*Term{False}
+		rep.Obligations = append(rep.Obligations, o)
 	}
 	return rep
 }
